@@ -61,6 +61,10 @@ class GzipDecompressor(SimpleGzipDecompressor):
             # XXX: gzip magic value is \x1f\x8b but data may come in as
             # a single byte. The likelyhood of plaintext starting with \x1f is
             # very low, right?
+            if not value:
+                # Nothing to look at yet
+                return b''
+
             self.checked = True
             if value[:1] == b'\x1f':
                 self.is_ok = True
